@@ -655,6 +655,36 @@ def shared_weight_model(rng):
   return mb.finish(), {'n_subgraphs': 1, 'ops': [2]}
 
 
+def unknown_reader_model(rng):
+  """x -> MAXIMUM(x, C) -> ADD/MUL(y, C): ONE constant tensor read by an operator the
+  quantizer does not know (it stays float) and by a quantizable operator"""
+  mb = ModelBuilder(rng, name_style=0)
+  gb = GraphBuilder(mb, 0, 'serving_default')
+  bsz, n = rng.choice([1, 2]), rng.choice([3, 4, 6])
+  x = gb.act('serving_default_x', (bsz, n))
+  gb.g.inputs.append(x)
+  c = gb.fconst('serving_default/shared/c', [n], kind='normal')
+  y = gb.act('serving_default/maximum/out', (bsz, n))
+  gb.op(B.MAXIMUM, [x, c], [y], S.BuiltinOptions.MaximumMinimumOptions, gb._mk(S.MaximumMinimumOptionsT))  # pylint: disable=protected-access
+  kind = rng.choice(['ADD', 'MUL'])
+  ot = {'ADD': (S.BuiltinOptions.AddOptions, S.AddOptionsT), 'MUL': (S.BuiltinOptions.MulOptions, S.MulOptionsT)}[kind]
+  out = gb.act(f'serving_default/{kind.lower()}/out', (bsz, n))
+  first, second = (y, c) if rng.random() < 0.5 else (x, c)
+  gb.op(getattr(B, kind), [first, second], [out], ot[0], gb._mk(ot[1], fusedActivationFunction=0))  # pylint: disable=protected-access
+  gb.g.outputs = np.array([out] if first == y else [out, y], dtype=np.int32)
+  gb.g.inputs = np.array(gb.g.inputs, dtype=np.int32)
+  mb.m.subgraphs.append(gb.g)
+  sd = S.SignatureDefT()
+  sd.signatureKey = b'serving_default'
+  sd.subgraphIndex = 0
+  sd.inputs, sd.outputs = [], []
+  tm = S.TensorMapT(); tm.name = b'x'; tm.tensorIndex = int(x); sd.inputs.append(tm)
+  for i_, t_ in enumerate(gb.g.outputs):
+    tm = S.TensorMapT(); tm.name = f'y{i_}'.encode(); tm.tensorIndex = int(t_); sd.outputs.append(tm)
+  mb.m.signatureDefs.append(sd)
+  return mb.finish(), {'n_subgraphs': 1, 'ops': [2], 'kind': kind}
+
+
 def reshape_concat_model(rng):
   """a[1,2n] -> RESHAPE [2,n] ; concat(reshape(a), b[2,n]) on axis 0: a byte-copying
   (same-scale) operator feeding a CONCATENATION whose other operand has a much wider
